@@ -893,6 +893,10 @@ func (e *Engine) declareWriterTheory() {
 		"(assert (forall ((a BSeq) (b BSeq) (c BSeq)) (! (= (cat (cat a b) c) (cat a (cat b c))) :weight 6 :pattern ((cat (cat a b) c)))))",
 		"(assert (forall ((a (Array Int Int)) (i Int)) (! (= (bseq a i i) eps) :pattern ((bseq a i i)))))",
 		"(declare-fun unit (Int) BSeq)", "(declare-fun fknown (BSeq) Bool)",
+		// a range splits at any point in between (instances are seeded by `split lo, mid, hi` with absolute indexes)
+		"(assert (forall ((a (Array Int Int)) (i Int) (j Int) (k Int)) (! (=> (and (<= i j) (<= j k) (fsplit i j k)) (= (bseq a i k) (cat (bseq a i j) (bseq a j k)))) :pattern ((bseq a i k) (fsplit i j k)))))",
+		// bseq(a,i,j) depends only on a[i..j): a store outside the range does not change it
+		"(assert (forall ((a (Array Int Int)) (i Int) (v Int) (lo Int) (hi Int)) (! (=> (or (<= hi i) (< i lo)) (= (bseq (store a i v) lo hi) (bseq a lo hi))) :pattern ((bseq (store a i v) lo hi)))))",
 		"(assert (forall ((a (Array Int Int)) (i Int) (j Int)) (! (=> (= j (+ i 1)) (= (bseq a i j) (unit (select a i)))) :pattern ((bseq a i j)))))",
 		"(assert (forall ((a (Array Int Int)) (i Int) (j Int) (k Int)) (! (=> (and (<= i j) (<= j k)) (= (cat (bseq a i j) (bseq a j k)) (bseq a i k))) :pattern ((cat (bseq a i j) (bseq a j k))))))")
 }
